@@ -36,7 +36,8 @@ Dangling(rule) == UNION {LET p == Parse(rule.conds[c]) IN IF p.ok THEN EmptySele
 
 Issue(t, rs, key) == [t |-> t, rules |-> rs, key |-> key]
 \* excl: set of <<validator, uid>> ; V: set of validators in use
-Active(v, r, coll, excl, V) == v \in V /\ ~(coll[r].uid # 0 /\ <<v, coll[r].uid>> \in excl)
+\* (uid 0 = a rule without identifier; the exclusion table may have an entry for such rules, key null)
+Active(v, r, coll, excl, V) == v \in V /\ <<v, coll[r].uid>> \notin excl
 Groups(coll, v, excl, V, attr(_)) ==
     {g \in {{r \in 1..Len(coll) : Active(v, r, coll, excl, V) /\ attr(coll[r]) = x /\ x # 0} : x \in {attr(coll[r]) : r \in 1..Len(coll)}} :
         Cardinality(g) >= 2}
